@@ -95,7 +95,7 @@ theorem sumPulsesLoop_spec (rl : Nat) : ∀ (bs : List Block) (c : Dec), (∀ b 
         cases e0
         rw [lsbCount_exit _ _ _ _ (by have := hb.le16; omega)] at e1
         cases e1
-        rw [h0]
+        rfl
       · simp only [h0, if_false] at h ⊢
         have h1 := h.1
         rw [reads_cons_append] at h1
@@ -122,13 +122,14 @@ theorem decodeSplit_spec {c : Dec} {a p : Nat} {tbl : List Nat} (ha : a ≤ p) (
   unfold encSplit at h ⊢
   unfold decodeSplit
   by_cases hp : p > 0
-  · simp only [hp, if_true] at h ⊢
+  · rw [if_pos hp] at h
+    rw [if_pos hp, if_pos hp]
     split
     rename_i x c1 e
     rw [sym_spec h] at e
     cases e
     rfl
-  · simp only [hp, if_false] at h ⊢
+  · rw [if_neg hp, if_neg hp]
     have : a = 0 := by omega
     subst this
     have : p = 0 := by omega
@@ -137,8 +138,8 @@ theorem decodeSplit_spec {c : Dec} {a p : Nat} {tbl : List Nat} (ha : a ≤ p) (
 
 theorem shellQuarter_spec {c : Dec} (b1 b2 d1 d2 : Nat) (h : Reads c (encQuarter [b1, b2, d1, d2])) :
     shellQuarter c (b1 + b2 + (d1 + d2)) = ([b1, b2, d1, d2], after c (encQuarter [b1, b2, d1, d2])) := by
-  simp only [encQuarter] at h ⊢
-  rw [reads_append, reads_append] at h
+  rw [encQuarter] at h ⊢
+  rw [reads_append, reads_append, after_append] at h
   rw [after_append, after_append]
   unfold shellQuarter
   split
@@ -174,7 +175,7 @@ theorem shellHalf_spec {c : Dec} {l : List Nat} (hl : l.length = 8) (h : Reads c
     conv => lhs; rw [← List.take_append_drop 4 l]
     rw [List.sum_append]
   unfold encHalf at h ⊢
-  rw [reads_append, reads_append] at h
+  rw [reads_append, reads_append, after_append] at h
   rw [after_append, after_append, hs]
   unfold shellHalf
   split
@@ -198,7 +199,7 @@ theorem shellDecoder_spec {c : Dec} {l : List Nat} (hl : l.length = 16) (h : Rea
     conv => lhs; rw [← List.take_append_drop 8 l]
     rw [List.sum_append]
   unfold encShell at h ⊢
-  rw [reads_append, reads_append] at h
+  rw [reads_append, reads_append, after_append] at h
   rw [after_append, after_append, hs]
   unfold shellDecoder
   split
@@ -234,12 +235,15 @@ theorem shellLoop_spec : ∀ (bs : List Block) (c : Dec), (∀ b ∈ bs, BlockOk
     rename_i blks c2 e2
     have key : (blk, c1) = (b.scaled, after c (encShellIf b)) := by
       rw [← e1]
-      unfold shellBlock encShellIf at *
+      unfold shellBlock
+      unfold encShellIf at h ⊢
       by_cases hp : b.sum > 0
-      · simp only [hp, if_true] at h ⊢
-        rw [hb.sum] at h ⊢
-        exact shellDecoder_spec hb.lenS h.1
-      · simp only [hp, if_false] at h ⊢
+      · rw [if_pos hp] at h
+        rw [if_pos hp, if_pos hp]
+        have := shellDecoder_spec hb.lenS h.1
+        rw [← hb.sum] at this
+        exact this
+      · rw [if_neg hp, if_neg hp]
         rw [(hb.zero (by omega)).2.1, after_nil]
     cases key
     rw [ih _ (fun b' hb' => hok b' (List.mem_cons_of_mem _ hb')) h.2] at e2
@@ -248,33 +252,35 @@ theorem shellLoop_spec : ∀ (bs : List Block) (c : Dec), (∀ b ∈ bs, BlockOk
 
 /-! ### LSBs -/
 
+theorem lsb_arith (q B P R : Nat) : (2 * q + B) * P + R = q * (P * 2) + (R + P * B) := by
+  have e1 : (2 * q + B) * P = q * (P * 2) + P * B := by
+    rw [Nat.add_mul, Nat.mul_comm 2 q, Nat.mul_assoc, Nat.mul_comm 2 P, Nat.mul_comm B P]
+  omega
+
 theorem lsbBits_spec : ∀ (n a q : Nat) (c : Dec), Reads c (encLsbBits n a) →
     lsbBits n q c = (q * 2 ^ n + a % 2 ^ n, after c (encLsbBits n a)) := by
   intro n
   induction n with
   | zero =>
     intro a q c _
-    simp only [lsbBits, encLsbBits, after_nil, Nat.pow_zero, Nat.mod_one, Nat.mul_one, Nat.add_zero]
+    unfold lsbBits
+    rw [encLsbBits, after_nil]
+    have : q * 2 ^ 0 + a % 2 ^ 0 = q := by simp [Nat.mod_one]
+    rw [this]
   | succ n ih =>
     intro a q c h
-    simp only [encLsbBits] at h ⊢
+    rw [encLsbBits] at h ⊢
     rw [reads_cons_append] at h
-    rw [lsbBits]
-    generalize silk_lsb_iCDF = TL at h ⊢
+    unfold lsbBits
     split
     rename_i b c1 e
     rw [sym_spec h.1] at e
     cases e
     rw [ih a _ _ h.2, after_cons]
     refine Prod.ext ?_ rfl
-    simp only
+    show (2 * q + a / 2 ^ n % 2) * 2 ^ n + a % 2 ^ n = q * 2 ^ (n + 1) + a % 2 ^ (n + 1)
     rw [Nat.mod_pow_succ, Nat.pow_succ]
-    have := Nat.mod_lt a (Nat.pow_pos (n := n) (show 0 < 2 by decide))
-    generalize 2 ^ n = P at *
-    generalize a / P % 2 = B
-    generalize a % P = R
-    rw [Nat.add_mul, Nat.mul_assoc, Nat.mul_comm 2 P, Nat.mul_comm B P]
-    omega
+    exact lsb_arith q _ _ _
 
 theorem lsbBlock_spec (n : Nat) : ∀ (os : List Nat) (c : Dec), Reads c (os.map (encLsbBits n)).flatten →
     lsbBlock n (os.map (· / 2 ^ n)) c = (os, after c (os.map (encLsbBits n)).flatten) := by
@@ -317,16 +323,20 @@ theorem lsbLoop_spec : ∀ (bs : List Block) (c : Dec), (∀ b ∈ bs, BlockOk b
     rename_i blks c2 e2
     have key : (blk, c1) = (b.orig.map Int.natAbs, after c (encLsbIf b)) := by
       rw [← e1]
-      unfold lsbBlockIf encLsbIf at *
+      unfold lsbBlockIf
+      unfold encLsbIf at h ⊢
+      have hm : b.orig.map (fun q => encLsbBits b.nR q.natAbs) = (b.orig.map Int.natAbs).map (encLsbBits b.nR) := by
+        rw [List.map_map]; rfl
       by_cases hp : b.nR > 0
-      · simp only [hp, if_true] at h ⊢
-        rw [← List.map_map] at h ⊢
-        rw [hb.scaled]
+      · rw [if_pos hp, hm] at h
+        rw [if_pos hp, if_pos hp, hm, hb.scaled]
         exact lsbBlock_spec b.nR _ _ h.1
-      · simp only [hp, if_false] at h ⊢
+      · rw [if_neg hp, if_neg hp]
         have h0 : b.nR = 0 := by omega
-        rw [hb.scaled, h0, after_nil]
-        simp only [Nat.pow_zero, Nat.div_one, List.map_id']
+        have hsc : b.scaled = b.orig.map Int.natAbs := by
+          rw [hb.scaled, h0]
+          simp only [Nat.pow_zero, Nat.div_one, List.map_id']
+        rw [hsc, after_nil]
     cases key
     rw [ih _ (fun b' hb' => hok b' (List.mem_cons_of_mem _ hb')) h.2] at e2
     cases e2
@@ -338,6 +348,14 @@ theorem lsbLoop_spec : ∀ (bs : List Block) (c : Dec), (∀ b ∈ bs, BlockOk b
 def signOps (icdf0 : Nat) (os : List Int) : List Op :=
   (os.filter (· ≠ 0)).map (fun q => ic (if q < 0 then 0 else 1) [icdf0, 0])
 
+theorem sign_arith (q : Int) (hq : q ≠ 0) :
+    (q.natAbs : Int) * (2 * (((if q < 0 then 0 else 1 : Nat)) : Int) - 1) = q := by
+  split
+  · simp only [Int.natCast_zero, Int.mul_zero, Int.zero_sub]
+    omega
+  · simp only [Int.natCast_one, Int.mul_one]
+    omega
+
 theorem signBlock_spec (icdf0 : Nat) : ∀ (os : List Int) (c : Dec), Reads c (signOps icdf0 os) →
     signBlock icdf0 (os.map Int.natAbs) c = (os, after c (signOps icdf0 os)) := by
   intro os
@@ -345,8 +363,7 @@ theorem signBlock_spec (icdf0 : Nat) : ∀ (os : List Int) (c : Dec), Reads c (s
   | nil => intro c _; rfl
   | cons q os ih =>
     intro c h
-    simp only [List.map_cons]
-    rw [signBlock]
+    rw [List.map_cons, signBlock]
     split
     rename_i v c1 e1
     split
@@ -356,7 +373,7 @@ theorem signBlock_spec (icdf0 : Nat) : ∀ (os : List Int) (c : Dec), Reads c (s
       have hops : signOps icdf0 (0 :: os) = signOps icdf0 os := by
         simp [signOps, List.filter_cons]
       rw [hops] at h ⊢
-      simp only [signOne, Int.natAbs_zero, Nat.lt_irrefl, gt_iff_lt, if_false] at e1
+      rw [signOne, if_neg (by decide)] at e1
       cases e1
       rw [ih _ h] at e2
       cases e2
@@ -367,20 +384,17 @@ theorem signBlock_spec (icdf0 : Nat) : ∀ (os : List Int) (c : Dec), Reads c (s
       rw [reads_cons_append] at h
       rw [after_cons]
       have hpos : q.natAbs > 0 := by omega
-      simp only [signOne, hpos, if_true] at e1
-      generalize hT : [icdf0, 0] = T at h e1 ⊢
-      revert e1
-      split
+      rw [signOne, if_pos hpos] at e1
+      split at e1
       rename_i s c1' e0
-      intro e1
       rw [sym_spec h.1] at e0
       cases e0
       cases e1
       rw [ih _ h.2] at e2
       cases e2
       refine Prod.ext ?_ rfl
-      simp only [List.cons.injEq, and_true]
-      split <;> omega
+      show _ :: _ = _ :: _
+      rw [sign_arith q hq]
 
 theorem signLoop_spec (base : Nat) : ∀ (bs : List Block) (c : Dec), (∀ b ∈ bs, BlockOk b) →
     Reads c (bs.map (encSignIf base)).flatten →
@@ -401,18 +415,21 @@ theorem signLoop_spec (base : Nat) : ∀ (bs : List Block) (c : Dec), (∀ b ∈
     rename_i blks c2 e2
     have key : (blk, c1) = (b.orig, after c (encSignIf base b)) := by
       rw [← e1]
-      unfold signBlockIf encSignIf at *
+      unfold signBlockIf
+      unfold encSignIf at h ⊢
       have hle := hb.le16
       by_cases hp : b.sum > 0
       · have hp' : b.sum + 32 * b.nR > 0 := by omega
         have hm : (b.sum + 32 * b.nR) % 32 = b.sum % 32 := Nat.add_mul_mod_self_left ..
-        simp only [hp, hp', hm, if_true] at h ⊢
+        rw [if_pos hp] at h
+        rw [if_pos hp, if_pos hp', hm]
         exact signBlock_spec _ _ _ h.1
       · have hz := hb.zero (by omega)
         have hp' : ¬ (b.sum + 32 * b.nR > 0) := by rw [hz.1]; omega
-        simp only [hp, hp', if_false] at h ⊢
-        rw [after_nil, hz.2.2]
-        decide
+        rw [if_neg hp, if_neg hp', after_nil, hz.2.2]
+        have : (List.map Int.natAbs (List.replicate 16 (0 : Int))).map (fun (q : Nat) => (q : Int)) = List.replicate 16 0 := by
+          decide
+        rw [this]
     cases key
     rw [ih _ (fun b' hb' => hok b' (List.mem_cons_of_mem _ hb')) h.2] at e2
     cases e2
@@ -420,33 +437,31 @@ theorem signLoop_spec (base : Nat) : ∀ (bs : List Block) (c : Dec), (∀ b ∈
 
 /-! ### silk_decode_pulses -/
 
-/-- `silk_decode_pulses` inverts `silk_encode_pulses`. -/
-theorem decodePulses_spec {sig qoff frameLen : Nat} {pulses : List Int} {d : Dec}
-    (hp : PulsesOk frameLen pulses) (hfl : (frameLen + 8) / 16 = shellBlocks frameLen)
-    (h : Reads d (encodePulses sig qoff frameLen pulses)) :
+theorem decodePulses_core {sig qoff frameLen rl : Nat} (bs : List Block) (hok : ∀ b ∈ bs, BlockOk b)
+    (hn1 : shellBlocks frameLen = bs.length) (hn2 : (frameLen + 8) / 16 = bs.length) {d : Dec}
+    (h : Reads d (ic rl (silk_rate_levels_iCDF.getD (sig / 2) []) ::
+      ((bs.map (encSum rl)).flatten ++ (bs.map encShellIf).flatten ++ (bs.map encLsbIf).flatten ++
+       (bs.map (encSignIf (7 * (qoff + 2 * sig)))).flatten))) :
     decodePulses sig qoff frameLen d =
-      (pulsesView sig frameLen pulses, after d (encodePulses sig qoff frameLen pulses)) := by
-  have hok := pulseBlocks_ok hp
-  have hlen := pulseBlocks_length frameLen pulses
-  unfold encodePulses at h ⊢
-  unfold pulsesView
-  simp only at h ⊢
-  rw [hfl, ← hlen, List.take_length] at h ⊢
-  generalize pulseBlocks frameLen pulses = bs at *
+      ({ rateLevel := rl, sumPulses := bs.map (·.sum), nLshifts := bs.map (·.nR),
+         absBlocks := bs.map (fun b => b.orig.map Int.natAbs), signed := bs.map (·.orig) },
+       after d (ic rl (silk_rate_levels_iCDF.getD (sig / 2) []) ::
+      ((bs.map (encSum rl)).flatten ++ (bs.map encShellIf).flatten ++ (bs.map encLsbIf).flatten ++
+       (bs.map (encSignIf (7 * (qoff + 2 * sig)))).flatten))) := by
   rw [reads_cons_append, reads_append, reads_append, reads_append] at h
   rcases h with ⟨h0, ⟨⟨h1, h2⟩, h3⟩, h4⟩
-  rw [after_cons, after_append, after_append, after_append]
   rw [after_append, after_append] at h4
   rw [after_append] at h3
+  rw [after_cons, after_append, after_append, after_append]
   unfold decodePulses
-  generalize silk_rate_levels_iCDF.getD (sig / 2) [] = TR at h0 h1 h2 h3 h4 ⊢
+  rw [hn1, hn2]
   split
-  rename_i rl c1 e0
+  rename_i rl' c1 e0
   rw [sym_spec h0] at e0
   cases e0
   split
   rename_i sps ns c2 e1
-  rw [← hlen, sumPulsesLoop_spec _ _ _ hok h1] at e1
+  rw [sumPulsesLoop_spec _ _ _ hok h1] at e1
   cases e1
   split
   rename_i sh c3 e2
@@ -461,6 +476,26 @@ theorem decodePulses_spec {sig qoff frameLen : Nat} {pulses : List Int} {d : Dec
   rw [signLoop_spec _ _ _ hok h4] at e4
   cases e4
   rfl
+
+/-- `silk_decode_pulses` inverts `silk_encode_pulses`. -/
+theorem decodePulses_spec {sig qoff frameLen : Nat} {pulses : List Int} {d : Dec}
+    (hp : PulsesOk frameLen pulses) (hfl : (frameLen + 8) / 16 = shellBlocks frameLen)
+    (h : Reads d (encodePulses sig qoff frameLen pulses)) :
+    decodePulses sig qoff frameLen d =
+      (pulsesView sig frameLen pulses, after d (encodePulses sig qoff frameLen pulses)) := by
+  have hok := pulseBlocks_ok hp
+  have hlen := pulseBlocks_length frameLen pulses
+  have ht : (pulseBlocks frameLen pulses).take ((frameLen + 8) / 16) = pulseBlocks frameLen pulses := by
+    rw [hfl, ← hlen, List.take_length]
+  have he : encodePulses sig qoff frameLen pulses =
+      ic (rateLevel sig (pulseBlocks frameLen pulses)) (silk_rate_levels_iCDF.getD (sig / 2) []) ::
+      (((pulseBlocks frameLen pulses).map (encSum (rateLevel sig (pulseBlocks frameLen pulses)))).flatten ++
+       ((pulseBlocks frameLen pulses).map encShellIf).flatten ++ ((pulseBlocks frameLen pulses).map encLsbIf).flatten ++
+       ((pulseBlocks frameLen pulses).map (encSignIf (7 * (qoff + 2 * sig)))).flatten) := by
+    unfold encodePulses
+    simp only [ht]
+  rw [he] at h ⊢
+  exact decodePulses_core _ hok hlen.symm (by rw [hfl, hlen]) h
 
 /-! ### Legality -/
 
